@@ -358,9 +358,11 @@ fn run_table_case(m: &mut Model, rep: &mut Report, stream: &str, to: u64, ops: &
                 let h = real.lm.lock_holder(&kname(*k));
                 if record { rep.hit(if l { "table.query.locked" } else { "table.query.free" }); }
                 let ans = format!("locked={} holder={}", l, h.map_or("-".to_string(), |x| x.to_string()));
-                let mo = m.ask(&format!("q {now} {k}"));
-                if !rep.compare(stream, || json!({"step": i, "trace": trace()}), &ans, &mo) {
-                    agreed = false;
+                if agreed {
+                    let mo = m.ask(&format!("q {now} {k}"));
+                    if !rep.compare(stream, || json!({"step": i, "trace": trace()}), &ans, &mo) {
+                        agreed = false;
+                    }
                 }
                 continue;
             }
@@ -377,10 +379,13 @@ fn run_table_case(m: &mut Model, rep: &mut Report, stream: &str, to: u64, ops: &
         let after = real.image();
         if after != before { state_changes += 1; }
         let imp_line = format!("{imp} | {}", after.show());
-        let mo = m.ask(&line);
-        if !rep.compare(stream, || json!({"step": i, "op": op_text(op), "trace": trace()}), &imp_line, &mo) {
-            agreed = false;
-            break;
+        // after the first model disagreement the rest of the sequence still runs on the real code so that
+        // the implementation-level oracles below can turn the divergence into a property-level failing input
+        if agreed {
+            let mo = m.ask(&line);
+            if !rep.compare(stream, || json!({"step": i, "op": op_text(op), "trace": trace()}), &imp_line, &mo) {
+                agreed = false;
+            }
         }
         // ---- oracles on the implementation's own image
         let now = real.vnow;
@@ -1121,15 +1126,21 @@ fn main() {
     let lap = |name: &str| eprintln!("[corr_locks] {name} done at {:.1}s", t_start.elapsed().as_secs_f64());
     // ---- stream 1: lock-table op sequences (virtual clock), with shrinking of a disagreement
     let mut r = root.fork("table");
+    let mut failed_cases = 0;
     for c in 0..2500 * scale {
         let n = 4 + r.below(24) as usize;
         let (to, ops) = gen_table_ops(&mut r, n, true);
         let ok = run_table_case(&mut m, &mut rep, "table.ops", to, &ops, true);
-        if !ok && c < 1_000_000 {
-            let mut scratch = Report::new("shrink");
-            let small = shrink_list(&ops, &mut |cand: &[Op]| !run_table_case(&mut m, &mut scratch, "shrink", to, cand, false));
-            rep.sample(json!({"stream": "table.ops", "shrunk_disagreement": small.iter().map(op_text).collect::<Vec<_>>(), "timeout_ticks": to}));
-            break;
+        if !ok {
+            failed_cases += 1;
+            if failed_cases == 1 {
+                let mut scratch = Report::new("shrink");
+                let small = shrink_list(&ops, &mut |cand: &[Op]| !run_table_case(&mut m, &mut scratch, "shrink", to, cand, false));
+                rep.sample(json!({"stream": "table.ops", "shrunk_disagreement": small.iter().map(op_text).collect::<Vec<_>>(), "timeout_ticks": to}));
+                for v in scratch.violations.iter().take(3) { rep.violations.push(v.clone()); }
+            }
+            if failed_cases >= 40 || !rep.violations.is_empty() { break; }
+            let _ = c;
         }
         if rep.samples.len() < 2 {
             rep.sample(json!({"stream": "table.ops", "timeout_ticks": to, "ops": ops.iter().map(op_text).collect::<Vec<_>>()}));
